@@ -165,8 +165,11 @@ class Ctx:
         cov.update(self.extra)
         ev = dict(property_id=self.pid, tier=self.tier, seed=self.seed, level=self.level, coverage=cov,
                   assumptions=self.assumptions, wall_s=round(time.time() - self.t0, 1), violations=len(unlisted))
-        os.makedirs(os.path.join(vlib.VERIF, "evidence"), exist_ok=True)
-        with open(os.path.join(vlib.VERIF, "evidence", self.pid + ".json"), "w") as f:
+        # evidence/ describes runs against /repo itself; a run against another tree (VERIF_REPO: scratch copies with a seeded
+        # change, snapshots of background runs) leaves its record under out/
+        edir = os.path.join(vlib.VERIF, "evidence") if os.path.realpath(vlib.REPO) == "/repo" else os.path.join(vlib.OUT, "evidence_other_tree")
+        os.makedirs(edir, exist_ok=True)
+        with open(os.path.join(edir, self.pid + ".json"), "w") as f:
             json.dump(ev, f, indent=1)
         print("%s %s: %d TLC states, %d behaviours replayed, %d lockstep events, %d unlisted disagreements, %.0f s"
               % (self.pid, self.tier, self.states, self.replayed + self.traces_validated, self.steps, len(unlisted), time.time() - self.t0))
